@@ -49,6 +49,46 @@ theorem rootAt_refuses (t : T) (n : Nat) (h : T.isTree t.g = .ok false ∨ (T.is
   · simp [hnv, h]
   · simp [hnv, h, hn]
 
+/-- **rootAt_total**: on every reachable state of the container `rootAt` returns (re-rooted, or refused): the model never runs
+out of fuel and never meets undefined behaviour there, so the fall-back `| _ => t` of `T.step (.rootAt n)` — under which
+`cache_sound`, `isValid_iff`, `history_consistent` would silently count such a call as no step — is dead
+(found missing, and proved, by the independent audit) -/
+theorem rootAt_total (d : Bool) (ops : List TOp) (n : Nat) : ∃ r, ((T.empty d).run ops).rootAt n = .ok r := by
+  generalize ht : (T.empty d).run ops = t
+  have hc : Consistent t.g := ht ▸ history_consistent d ops
+  have hs : CacheSound t := ht ▸ cache_sound d ops
+  cases hr : t.g.hasNode t.g.root with
+  | false =>
+    have he := T.isTree_root_absent hr
+    have hv : t.valid = false := by
+      cases h : t.valid with
+      | false => rfl
+      | true => have := hs h; rw [he] at this; cases this
+    exact ⟨(.exc t.g, t), by simp [T.rootAt, T.isValid, hv, he]⟩
+  | true =>
+    obtain ⟨b, hb⟩ := T.isTree_total hc hr
+    cases b with
+    | false =>
+      have hv : t.valid = false := by
+        cases h : t.valid with
+        | false => rfl
+        | true => have := hs h; rw [hb] at this; cases this
+      obtain ⟨t', h, _⟩ := rootAt_refuses t n (Or.inl hb) hv
+      exact ⟨_, h⟩
+    | true =>
+      cases hn : t.g.hasNode n with
+      | true => obtain ⟨t', h, _⟩ := rootAt_spec t hc hb n hn; exact ⟨_, h⟩
+      | false =>
+        cases h : t.valid with
+        | false => obtain ⟨t', h, _⟩ := rootAt_refuses t n (Or.inr ⟨hb, hn⟩) h; exact ⟨_, h⟩
+        | true => exact ⟨(.exc t.g, t), by simp [T.rootAt, T.isValid, h, hn]⟩
+
+/-- hence a `rootAt` in a history is always the step the model computes -/
+theorem step_rootAt_eq (d : Bool) (ops : List TOp) (n : Nat) :
+    ∃ r, ((T.empty d).run ops).rootAt n = .ok r ∧ ((T.empty d).run ops).step (.rootAt n) = r.2 := by
+  obtain ⟨r, hr⟩ := rootAt_total d ops n
+  exact ⟨r, hr, by simp [T.step, hr]⟩
+
 /-! non-vacuity: the tree 0 -> 1 -> 3, 0 -> 2 re-rooted at 3; the same unrooted (built undirected with
 ids that are not increasing away from 3) re-rooted at 3 — the witness of the repaired defect -/
 
